@@ -107,6 +107,9 @@ def schedule_world(seed, strategy, scratch, **kw):
                     for i in cells:
                         cell = c.root()['c%d' % i]
                         cell.base, cell.tok = cell.tok, tok
+                    # some transactions are longer than a file read buffer: the packer's reads of their tail reach into whatever
+                    # a committer is writing behind them
+                    c.root()['c%d' % cells[0]].pad = 'p' * rnd.choice([0, 0, 9000, 20000])
                     tm.get().note(tok)
                     tm.commit()
                     oks.append((s.log('commit_ret', name), tok, cells, c.root()['c%d' % cells[0]]._p_serial))
